@@ -29,6 +29,14 @@ def call_strategy(max_n=12, lazy_weight=2, late=True):
     })
 
 
+def with_special_items(case):
+    """every call gets items that are None / falsy / empty containers (results: the items themselves)"""
+    for ci, call in enumerate(case["calls"]):
+        call["vals"] = [(call["n"] * 7 + ci * 3 + i * (1 + call.get("tail", 0) % 5) + (i * i) % 3) % len(P.SPECIAL) for i in range(call["n"])]
+    case["special"] = True
+    return case
+
+
 def pool_strategy(kinds=("functor", "factory"), max_calls=1, quotas=(None,), max_n=12, min_calls=1, sched=None):
     return st.fixed_dictionaries({
         "pool": st.sampled_from(list(kinds)),
@@ -43,6 +51,9 @@ def pool_strategy(kinds=("functor", "factory"), max_calls=1, quotas=(None,), max
         "repl_begin_delay": st.sampled_from([0, 0, 50]),
         "end_delay": st.sampled_from([0, 0, 30, 400]),
         "ready_at": st.sampled_from([None, None, 0, 1]),
+        "ready_mid": st.sampled_from([None, None, None, [0, 1], [0, 2], [1, 1], [0, 3]]),
+        "ready_thread": st.sampled_from([None, None, None, {"start": 0, "gap": 1, "reps": 8}, {"start": 10, "gap": 3, "reps": 5},
+                                         {"start": 30, "gap": 10, "reps": 3}]),
         "sched": sched or schedules.strategy(),
     }).map(normalise)
 
@@ -182,7 +193,7 @@ def minimise(case, sig, verdict_fn, budget=400):
                 d = copy.deepcopy(c)
                 d["calls"][i]["n"] = call["n"] // 2
                 yield d
-        for key, val in (("slow", {}), ("cdelay", [0]), ("begin_delay", 0), ("repl_begin_delay", 0), ("end_delay", 0), ("ready_at", None), ("rq", None), ("wq", "1.0")):
+        for key, val in (("slow", {}), ("cdelay", [0]), ("begin_delay", 0), ("repl_begin_delay", 0), ("end_delay", 0), ("ready_at", None), ("ready_mid", None), ("ready_thread", None), ("rq", None), ("wq", "1.0")):
             if c.get(key) != val:
                 d = copy.deepcopy(c)
                 d[key] = val
